@@ -4,7 +4,8 @@ import ScriggoV.Spec.Position
 /-! # Segments of the lexer's position bookkeeping (C21)
 
 `Gen/LexAdvance.lean` (regenerated from lexer.go on every check) lists, for the main loop of
-`scan` and for `scanCodeBlock`, every *segment*: a run of statements that moves `p`, `l.column`
+`scan`, for `scanCodeBlock`, `scanTag`, `scanAttribute` and for the byte walks of `lexComment`,
+`skipRawContent` and CDATA sections, every *segment*: a run of statements that moves `p`, `l.column`
 and `l.line` without handing the bookkeeping to other code, with the *guard* the conditions on
 the path put on the bytes at fixed offsets from the `p` the segment started with.
 
